@@ -78,7 +78,7 @@ pub fn all() -> Vec<CheckSpec> {
         CheckSpec {
             prop: "C10",
             engine: "E2-reuse-history",
-            runs_quick: 60000,
+            runs_quick: 160000,
             runs_thorough: 4000000,
             run: e2::run_c10,
             rule: "one run = one seeded history (10-60 operations, 1-3 logical workers, 2-5 random multi-output functions over all opcodes, one backend of VM<3>/VM<8>/VM<255>/JIT) of {build, point/interval/float-slice/grad-slice evaluation with the worker's kept evaluator and a tape built into fresh or recycled storage, simplify with kept workspace and recycled function storage, cross-budget simplify, recycle, clone handle, hand storage to another worker, re-evaluate a tape held across other operations, RenderHandle episode}; after every operation the result is compared with the same call on fresh objects. distinct_nontrivial = number of distinct history signatures (hash of the whole operation/provenance/result log) among runs in which at least one reuse fault kind fired",
@@ -94,7 +94,7 @@ pub fn all() -> Vec<CheckSpec> {
         CheckSpec {
             prop: "C04",
             engine: "E2-reuse-history",
-            runs_quick: 50000,
+            runs_quick: 120000,
             runs_thorough: 3000000,
             run: e2::run_c04,
             rule: "same history engine as C10 weighted towards simplification chains (depth <= 6): traces come from VM/JIT point and interval evaluators run with reused evaluator objects, children are produced with reused workspaces, recycled storage, other register budgets and through RenderHandle's trace-keyed cache; after every simplification parent and child are compared bit for bit at the traced point or at 6 points of the traced box under point, float-slice and grad-slice evaluation with fresh evaluators. distinct_nontrivial = distinct history signatures among runs with at least one reuse fault kind",
